@@ -34,6 +34,7 @@ def main():
     print("[setup] helgrind: %s" % (r.stdout.strip().splitlines()[-1] if r.stdout.strip() else "(no output)"))
     if r.returncode != 0:
         print(r.stdout[-4000:]); return 1
+    buildmod.build("vg", None, ["c17_workflow"])   # uninstrumented build for the valgrind-memcheck subsample of the C17 quick check
     buildmod.build("sancl", None, ["c17_workflow", "c06_parallel"])   # clang's ASan/UBSan flavour (part of the C17 quick check)
     r = subprocess.run([sys.executable, os.path.join(buildmod.VERIF, "tools", "selftest.py"), "--quick"])
     if r.returncode != 0:
